@@ -67,6 +67,47 @@ REPROS = {
         "c = s.copy().canonicalise(); c.evolve_config = s.evolve_config; err2 = np.linalg.norm(dense(c.evolve(mpo, 0.02)) - sla.expm(-1j*H*0.02) @ psi)\n"
         "print('TDVP-PS at full bond dimension: error', err, ' after canonicalise():', err2)\n"
         "sys.exit(1 if err > 1e-6 else 0)\n",
+    "tdrk-adaptive-callable-time-offset":
+        "import renormalizer\nimport numpy as np, sys\nfrom renormalizer.model import Model, Op, basis as ba\nfrom renormalizer.mps import Mps, Mpo\n"
+        "from renormalizer.utils import EvolveConfig, EvolveMethod, CompressConfig, CompressCriteria\n"
+        "np.random.seed(5); n = 4\n"
+        "basis = [ba.BasisHalfSpin(i) for i in range(n)]\n"
+        "h0 = [Op('X X', [i, i+1], 0.8) for i in range(n-1)] + [Op('Z', i, 0.3*(i+1)) for i in range(n)]\n"
+        "h1 = [Op('X', i, 1.0 if i % 2 else -1.2) for i in range(n)]\n"
+        "f = lambda t: np.sin(3.0*t) + 0.5*t\n"
+        "times = []\n"
+        "def mpo_t(t, *a, **k):\n"
+        "    times.append(float(t)); return Mpo(Model(basis, h0 + [o*float(f(t)) for o in h1]))\n"
+        "H0 = np.asarray(Mpo(Model(basis, h0)).todense()); H1 = np.asarray(Mpo(Model(basis, h1)).todense())\n"
+        "s = Mps.random(Model(basis, h0), 0, 8).canonicalise().canonicalise()\n"
+        "s.evolve_config = EvolveConfig(EvolveMethod.prop_and_compress_tdrk, rk_solver='Cash-Karp45', adaptive=True, guess_dt=0.1, adaptive_rtol=1e-5)\n"
+        "s.compress_config = CompressConfig(CompressCriteria.fixed, max_bonddim=32)\n"
+        "psi = (np.asarray(s.todense())*s.coeff).astype(complex); T = 0.9; out = s.evolve(mpo_t, T)\n"
+        "y = psi.copy(); N = 4000; h = T/N; F = lambda t, v: -1j*((H0 + f(t)*H1) @ v)\n"
+        "for i in range(N):\n"
+        "    t = i*h; k1 = F(t, y); k2 = F(t+h/2, y+h/2*k1); k3 = F(t+h/2, y+h/2*k2); k4 = F(t+h, y+h*k3); y = y + h/6*(k1+2*k2+2*k3+k4)\n"
+        "err = np.linalg.norm(np.asarray(out.todense())*out.coeff - y)\n"
+        "print('adaptive Cash-Karp with H(t): distance to the dense reference', err, '; largest time the callable was sampled at', max(times), 'of', T)\n"
+        "sys.exit(1 if (err > 2e-3 or max(times) < 0.9*T) else 0)\n",
+    "vmf-cmf-noncanonical-input":
+        "import renormalizer\nimport numpy as np, scipy.linalg as sla, sys\nfrom renormalizer.model import Model, Op, basis as ba\nfrom renormalizer.mps import Mps, Mpo\n"
+        "from renormalizer.utils import EvolveConfig, EvolveMethod\n"
+        "np.random.seed(3); n = 4\n"
+        "basis = [ba.BasisHalfSpin(i) for i in range(n)]\n"
+        "model = Model(basis, [Op('X X', [i, i+1], 1.0) for i in range(n-1)] + [Op('Z Z', [i, i+1], 0.4) for i in range(n-1)] + [Op('Z', i, 0.3*(i+1)) for i in range(n)] + [Op('X', i, 0.5) for i in range(n)])\n"
+        "mpo = Mpo(model); H = np.asarray(mpo.todense())\n"
+        "c = Mps.random(model, 0, 4).canonicalise().canonicalise(); g = c.copy(); r = np.random.RandomState(7)\n"
+        "for i in range(n-1):\n"
+        "    d = g[i].shape[-1]; X = np.eye(d) + 0.5*r.standard_normal((d, d))\n"
+        "    g[i] = np.tensordot(g[i].array, X, axes=(-1, 0)); g[i+1] = np.tensordot(np.linalg.inv(X), g[i+1].array, axes=(-1, 0))\n"
+        "psi = np.asarray(g.todense())*g.coeff; ref = sla.expm(-0.3j*H) @ psi; bad = []\n"
+        "for meth in (EvolveMethod.tdvp_vmf, EvolveMethod.tdvp_mu_vmf, EvolveMethod.tdvp_mu_cmf):\n"
+        "    for fo in (True, False):\n"
+        "        a = g.copy(); a.evolve_config = EvolveConfig(meth, force_ovlp=fo); a.evolve_config.vmf_auto_switch = False\n"
+        "        for _ in range(1 if meth != EvolveMethod.tdvp_mu_cmf else 30): a = a.evolve(mpo, 0.3 if meth != EvolveMethod.tdvp_mu_cmf else 0.01)\n"
+        "        e = np.linalg.norm(np.asarray(a.todense())*a.coeff - ref); print(meth.name, 'force_ovlp', fo, 'error on the re-gauged (same vector, same flags) input', e)\n"
+        "        if e > 1e-3: bad.append((meth.name, fo, e))\n"
+        "sys.exit(1 if bad else 0)\n",
     "cmf-krylov-solver-dependence": PRE +
         "s = Mps.random(m, 1, 8).canonicalise().canonicalise()\n"
         "outs = []\n"
@@ -92,6 +133,9 @@ def classify(k, rec):
         return "mu-vmf-cmf-overcomplete-reshape"      # a preceding two-site / P&C call left bonds larger than their right block
     if k == "exception/sequence" and "infs or NaNs" in exc and str(rec.get("failing_call", "")).startswith("tdvp_vmf"):
         return "vmf-overcomplete-singular-overlap"
+    if k.startswith("gauge/") and k.split("/")[1].startswith(("tdvp_vmf", "tdvp_mu_vmf", "cmf")) and \
+            k.split("/")[2] in ("regauged-left-flags", "regauged-right-flags", "added-raw", "operator-applied"):
+        return "vmf-cmf-noncanonical-input"
     if k.startswith("gauge/ps/operator-applied"):
         return "tdvp-ps-noncanonical-input"
     if k.startswith("solver-dependence/tdvp_mu_cmf"):
@@ -157,6 +201,22 @@ def ctl_coq_text(traces):
         fn = {"tdvp": "tdvp_run", "pc": "pc_run", "tdrk": "tdrk_run"}[t["ctl"]]
         lines.append("Eval vm_compute in (enc (%s %d (est_of_list %s) %s %s))." %
                      (fn, len(t["its"]) + 3, ps, coq_q(q_of_float(t["target"])), coq_q(q_of_float(t["guess0"]))))
+    return "\n".join(lines) + "\n"
+
+
+def td_coq_text(runs, tabs):
+    idx = {t["name"]: i for i, t in enumerate(tabs)}
+    lines = ["From RV Require Import Gen.RkTableaux Gen.StepCtlConsts Model.StepCtl.", "From Coq Require Import List QArith ZArith.", "Import ListNotations.",
+             "Definition enc (r : option (list event * Q)) : list Z := match r with None => [] | Some (tr, g) =>",
+             "  (flat_map (fun e => [Qnum (Qred (e_dt e)); Zpos (Qden (Qred (e_dt e))); (if e_acc e then 1 else 0)%Z; Qnum (Qred (e_guess e)); Zpos (Qden (Qred (e_guess e)))]) tr)",
+             "  ++ [Qnum (Qred g); Zpos (Qden (Qred g))] end.",
+             "Definition enct (cs : list Q) (r : option (list event * Q)) : list Z := match r with None => [] | Some (tr, _) =>",
+             "  flat_map (fun q => [Qnum (Qred q); Zpos (Qden (Qred q))]) (sample_times cs tr) end."]
+    for r in runs:
+        ps = "[" + "; ".join(coq_q(q_of_float(it["p"])) for it in r["its"]) + "]"
+        call = "(tdrk_run %d (est_of_list %s) %s %s)" % (len(r["its"]) + 3, ps, coq_q(q_of_float(r["target"])), coq_q(q_of_float(r["guess0"])))
+        lines.append("Eval vm_compute in (enc %s)." % call)
+        lines.append("Eval vm_compute in (enct (t_c tab_%d) %s)." % (idx[r["solver"]], call))
     return "\n".join(lines) + "\n"
 
 
@@ -322,15 +382,17 @@ def run(ctx):
         for i in range(4 if quick else 10):
             jobs.append(("ctl", {"script": "c09_ctl.py", "seed": seed + 101 * i, "n": 3 if quick else 6, "budget_s": 60 if quick else 600}))
         for i in range(2 if quick else 6):
+            jobs.append(("td", {"script": "c09_td.py", "seed": seed + 53 * i, "n": 3 if quick else 5}))
+        for i in range(2 if quick else 6):
             jobs.append(("ps", {"script": "c09_ps.py", "seed": seed + 7 * i, "n": 6 if quick else 12}))
     nsh = 14
     budget = 75 if quick else 900
     for i in range(nsh):
         jobs.append(("oracle", {"script": "c09_oracle.py", "seed": seed, "shard": i, "nshards": nsh, "tier": ctx.tier, "budget_s": budget}))
     # the long oracle shards first
-    jobs.sort(key=lambda j: {"oracle": 0, "pc": 1, "ctl": 2, "ps": 3}[j[0]])
+    jobs.sort(key=lambda j: {"oracle": 0, "pc": 1, "ctl": 2, "td": 3, "ps": 4}[j[0]])
     results = ctx.impl_par("c09_dispatch.py", [p for _, p in jobs], timeout=(420 if quick else 3000), par=14)
-    by = {"pc": [], "ctl": [], "ps": [], "oracle": []}
+    by = {"pc": [], "ctl": [], "ps": [], "oracle": [], "td": []}
     for (kind, _), r in zip(jobs, results):
         by[kind].append(r)
     # ---- P&C tie
@@ -368,8 +430,22 @@ def run(ctx):
     for r in runs:
         if r["exc"] is not None:
             corr_bad.append({"what": "projector-splitting step raised", "run": {k: v for k, v in r.items() if k != "obs"}})
+    # ---- adaptive general RK with a time-dependent callable
+    td_runs = []
+    td_classes = []
+    for rc, res, raw in by["td"]:
+        if res is None or "runs" not in res:
+            corr_bad.append({"what": "c09_td.py failed", "out": (raw or "")[-800:]})
+            continue
+        for r in res["runs"]:
+            if r["exc"] is not None or not r["its"] or any(i["p"] is None or i["outcome"] is None for i in r["its"]):
+                corr_bad.append({"what": "time-dependent adaptive run raised / incomplete log", "run": {k: v for k, v in r.items() if k != "sample_times"}})
+            elif len(r["its"]) <= 30:
+                td_runs.append(r)
     # ---- replay both through the Coq models
     items = []
+    if td_runs and tabs is not None:
+        items.append(("td", td_coq_text(td_runs, tabs)))
     if traces:
         items.append(("ctl", ctl_coq_text(traces)))
     if good:
@@ -397,6 +473,39 @@ def run(ctx):
             samples.append({"controller": traces[0]["ctl"], "target": traces[0]["target"], "guess0": traces[0]["guess0"],
                             "iterations": [(i["dt"], i["p"], i["outcome"]) for i in traces[0]["its"][:4]]})
         ctx.notes.append("controller traces: %d replayed, %d equal, %d ended early by allclose (residual), %d longer than 30 iterations not replayed" % (n_ctl, n_ctl_ok, n_resid, n_long))
+    n_td = n_td_ok = 0
+    if td_runs and ok_build and tabs is not None:
+        rc, out = outs.get("td", (1, ""))
+        zl = common.parse_Z_lists(out) if rc == 0 else []
+        if len(zl) != 2 * len(td_runs):
+            corr_bad.append({"what": "time-dependent replay in Coq failed", "out": out[-800:]})
+        else:
+            for k, r in enumerate(td_runs):
+                n_td += 1
+                zs, zt = zl[2 * k], zl[2 * k + 1]
+                d = compare_ctl(r, zs)
+                model_t = [zt[2 * j] / zt[2 * j + 1] for j in range(len(zt) // 2)]
+                ev += len(model_t)
+                tdiff = None
+                if len(model_t) != len(r["sample_times"]):
+                    tdiff = "number of samples: model %d, implementation %d" % (len(model_t), len(r["sample_times"]))
+                else:
+                    for j, (a_, b_) in enumerate(zip(model_t, r["sample_times"])):
+                        if abs(a_ - b_) > 1e-10 * max(1.0, abs(a_)):
+                            tdiff = "sample %d: model t = %r (c_i*dt + accepted time), implementation sampled H at t = %r" % (j, a_, b_)
+                            break
+                dense_bad = not (r["err"] is not None and r["err"] <= r["bound"])
+                if d in (None, "residual-allclose") and tdiff is None and not dense_bad:
+                    n_td_ok += 1
+                    if r["n_accepted"] >= 2:
+                        nontriv += 1
+                else:
+                    td_classes.append({"solver": r["solver"], "target": r["target"], "guess0": r["guess0"], "rtol": r["rtol"], "controller_diff": d,
+                                       "sample_time_diff": tdiff, "dense_error": r["err"], "dense_bound": r["bound"],
+                                       "iterations": [(i["dt"], i["outcome"]) for i in r["its"][:6]], "first_samples": r["sample_times"][:14]})
+            samples.append({"time_dependent_run": {k: td_runs[0][k] for k in ("solver", "target", "guess0", "rtol", "n_accepted", "err")},
+                            "first_sample_times": td_runs[0]["sample_times"][:7]})
+        ctx.notes.append("adaptive general RK with H(t) callable: %d runs, %d with sample times = c_i*dt + accepted time (model) and dense result within bound" % (n_td, n_td_ok))
     n_ps = n_ps_ok = 0
     if good and ok_build:
         rc, out = outs.get("ps", (1, ""))
@@ -442,6 +551,8 @@ def run(ctx):
         classes.setdefault("tdrk-adaptive-rejected-step-applied", []).append(
             {"source": "tx/stepctl.py: `new_mps, error = sub_time_step_evolve(new_mps, dt, evolved_dt)` binds the trial result to the loop-carried state before the accept test",
              "model": "C09_tdrk_state_time_refuted (compiled): exists a terminating run whose state has been propagated by more than the requested time"})
+    if td_classes:
+        classes.setdefault("tdrk-adaptive-callable-time-offset", []).extend(td_classes)
     for key, recs in sorted(classes.items()):
         repro = REPROS.get(key)
         found = repro is not None
@@ -451,6 +562,8 @@ def run(ctx):
         what = {"tdrk-adaptive-rejected-step-applied": "theorem C09_tdrk_state_time (hypothesis tdrk_carry_rejected = false is refuted by the generated flag) and oracle clause `adaptive vs fixed`",
                 "mu-vmf-cmf-overcomplete-reshape": "oracle clause `any gauge, sufficient bond dimension` (exception on an accepted input)",
                 "vmf-overcomplete-singular-overlap": "oracle clause `any gauge, sufficient bond dimension` (exception on an accepted input)",
+                "tdrk-adaptive-callable-time-offset": "theorem C09_tdrk_offset_is_accepted_time / Model.Prop.rk_stages (stage Hamiltonian sampled at c_i*dt + t0) vs the recorded sample times, and the dense fixed-step reference",
+                "vmf-cmf-noncanonical-input": "oracle clause `any gauge, sufficient bond dimension` (mean-field TDVP on a non-canonical representation)",
                 "tdvp-ps-noncanonical-input": "oracle clause `any gauge, sufficient bond dimension` (TDVP-PS inexact at full bond dimension)",
                 "cmf-krylov-solver-dependence": "oracle clause `result does not depend on the local integrator`"}.get(key, "dense oracle: " + key)
         ctx.violation(key, what, {"n_records": len(recs), "records": recs[:3]}, found=found, repro=repro)
@@ -461,6 +574,6 @@ def run(ctx):
             "rule": "P&C: a (model, state, scheme, tableau/order, dt) case counts once its dense result matched the Coq-exported polynomial to 1e-10; controllers: a trace counts if it has more than one iteration or a rejection and equals the model; PS: a run counts if its whole event sequence equals the model; oracle checks are counted in evaluations only",
             "samples": samples[:3], "exhaustive": False,
             "input_distribution": {"pc_cases": n_pc, "controller_traces": n_ctl, "controller_traces_equal": n_ctl_ok,
-                                   "controller_allclose_residual": n_resid, "ps_runs": n_ps, "ps_runs_equal": n_ps_ok,
+                                   "controller_allclose_residual": n_resid, "ps_runs": n_ps, "ps_runs_equal": n_ps_ok, "time_dependent_adaptive_runs": n_td, "time_dependent_adaptive_runs_ok": n_td_ok,
                                    "oracle_checks": n_or, "oracle_jobs_skipped": skipped,
                                    "violation_classes": {k: len(v) for k, v in classes.items()}}}
